@@ -83,7 +83,7 @@ pub fn position_to_offset(source: &str, position: Position) -> Option<usize> {
 /// Convert a span (start, end byte offsets) to an LSP Range.
 pub fn span_to_range(source: &str, start: usize, end: usize) -> Range {
     let start_pos = offset_to_position(source, start);
-    let end_pos = offset_to_position(source, end.max(start + 1));
+    let end_pos = offset_to_position(source, end.max(start.saturating_add(1)));
     Range::new(start_pos, end_pos)
 }
 
